@@ -22,7 +22,16 @@ func init() {
 // Letters are 1 px wide; {Cn} control codes are n px wide; é is a 1 px letter.
 func fmtWord(i, w int, variant int) string {
 	letter := string(rune('a' + i%20))
-	switch variant % 5 {
+	switch variant % 7 {
+	case 5:
+		// white space that is not the blank: part of the word (1 px each in the tables)
+		if w >= 3 {
+			return letter + []string{"\u00a0", "\u3000", "\t"}[i%3] + strings.Repeat(letter, w-2)
+		}
+	case 6:
+		if w == 3 {
+			return "{C  S}" + letter // a control code containing two blanks, 2 px
+		}
 	case 4:
 		// a closing brace that closes nothing is an ordinary 1 px character
 		if w >= 2 {
@@ -48,7 +57,7 @@ func fmtWord(i, w int, variant int) string {
 var fmtCodes = map[int]string{4: `\n`, 5: `\l`, 6: `\p`, 7: `\N`}
 
 func fmtFont(sp int) parser.Fonts {
-	w := map[string]int{" ": sp, "é": 1, "}": 1, "{C1}": 1, "{C2}": 2, "{C S}": 2, "default": 1}
+	w := map[string]int{" ": sp, "é": 1, "}": 1, "{C1}": 1, "{C2}": 2, "{C S}": 2, "{C  S}": 2, "\u00a0": 1, "\u3000": 1, "\t": 1, "default": 1}
 	for ch := 'a'; ch <= 'z'; ch++ {
 		w[string(ch)] = 1
 	}
